@@ -10,8 +10,9 @@ git -C /repo worktree remove --force $WT 2>/dev/null
 git -C /repo worktree add -q --detach $WT HEAD || exit 2
 if ! git -C $WT apply $D/patch.diff; then echo "$T: patch does not apply" | tee $D/outcome.txt; git -C /repo worktree remove --force $WT; exit 2; fi
 cd /verif
-: > $D/outcome.txt
+touch $D/outcome.txt
 for c in "$@"; do
+  grep -v "check=$c " $D/outcome.txt | grep -v "^VIOLATION property=$c " > $D/outcome.txt.new; mv $D/outcome.txt.new $D/outcome.txt
   out=$(VERIF_REPO=$WT ./check $c quick 2>&1); rc=$?
   nv=$(echo "$out" | grep -c '^VIOLATION'); nf=$(echo "$out" | grep '^VIOLATION' | grep -vc 'no-failing-input-found')
   echo "$T check=$c rc=$rc violations=$nv with-failing-input=$nf :: $(echo "$out" | tail -1)" | tee -a $D/outcome.txt
